@@ -16,6 +16,7 @@ func init() {
 }
 
 func checkC05(c *Ctx, r *Report) {
+	appDataRule(c, r, "C05.OWNDATA", "a value coerced in place is seen, already converted, by every other field backed by the same slice or map: a [String] field and an [Int] field over one slice both come out with the shape of whichever was resolved last, without an error")
 	r.rule("C05.LEAF", "values leaving the dispatcher / appended by the list resolver are coercer results, recursive results, fresh maps or nil")
 	r.rule("C05.NILERR", "call sites of OutCoercer.CoerceOut: value used only where the error is nil")
 	r.rule("C05.NARROW", "narrowing conversions in CoerceOut bodies and helpers are range-guarded")
